@@ -2068,7 +2068,7 @@ def rules_stream(ctx, I, n):
         hctx.add_condition(c)
     for k in range(n):
         kind = rng.choice(["lin", "lin", "lin", "lin-sum", "lin-indef", "split", "split", "parts", "parts", "subst", "subst", "subst-inv",
-                           "exchange"])
+                           "exchange", "expand"])
         lo, hi, c, (qlo, qhi, qc) = gen_bounds(I, rng)
         before = after = None
         rule = None
@@ -2103,6 +2103,12 @@ def rules_stream(ctx, I, n):
                     dg = R.deriv("x", g, hctx)
                     before = E.Integral("x", lo, hi, f.subst("u", g) * dg)
                     rule = R.Substitution("u", g)
+                elif kind == "expand":
+                    facs = ["(x + 1)", "(x - 2)", "(2 * x + a)", "(x ^ 2 + 1)", "(x - a)", "(1 - x)", "(x + b) ^ 2", "(x - 1) ^ 3", "x",
+                            "(a * x + b)", "exp(x)", "(sin(x) + 1)"]
+                    body = P(" * ".join(rng.sample(facs, rng.randint(2, 3))) + rng.choice(["", " / x", " / (a + 1)", " ^ 2"]))
+                    before = E.Integral("x", lo, hi, body) if rng.random() < 0.7 else body
+                    rule = R.ExpandPolynomial()
                 elif kind == "exchange":
                     f = P(rng.choice(["x ^ a", "exp(a * x)", "sin(a * x)", "cos(a * x) * x", "log(x + a)", "1 / (x + a)", "atan(a * x)",
                                       "x ^ 2 * exp(-(a * x))", "sqrt(x + a ^ 2)"]))
@@ -3309,6 +3315,8 @@ def mk_rule(I, params):
         return R.Linearity()
     if n == "DerivIntExchange":
         return R.DerivIntExchange()
+    if n == "ExpandPolynomial":
+        return R.ExpandPolynomial()
     if n == "SplitRegion":
         return R.SplitRegion(P(params["c"]))
     if n == "IntegrationByParts":
